@@ -2,15 +2,22 @@
 package main
 
 import (
+	"bufio"
+	"encoding/binary"
+	"encoding/json"
 	"fmt"
 	"os"
+	"os/exec"
 	"path/filepath"
 	"regexp"
 	"runtime"
+	"runtime/debug"
 	"sort"
+	"strconv"
 	"strings"
 	"sync"
 	"sync/atomic"
+	"syscall"
 	"time"
 
 	"github.com/google/mtail/internal/runtime/code"
@@ -33,6 +40,106 @@ func objString(o *code.Object) string {
 		fmt.Fprintf(&b, "M %s %s %v %v %q hidden=%v limit=%d src=%s buckets=%v n=%d\n", m.Name, m.Program, m.Kind, m.Type, m.Keys, m.Hidden, m.Limit, m.Source, m.Buckets, len(m.LabelValues))
 	}
 	return b.String()
+}
+
+// Crash isolation.  A fatal error (stack overflow, out of memory) cannot be recovered in-process, so the whole
+// enumeration runs in a child process that records, per worker slot, the index of the input being compiled in a
+// small shared file.  If the child dies, the supervisor re-runs each in-flight input alone in a fresh process;
+// the ones that kill it again are reported as crashes.
+var slotIdx []byte
+
+func setSlot(w int, i int) {
+	if slotIdx != nil {
+		binary.LittleEndian.PutUint64(slotIdx[8*w:], uint64(i))
+	}
+}
+
+func supervise(c *vlib.Ctx, rule string, nw int) {
+	dir := os.Getenv("VERIF_SCRATCH")
+	if dir == "" {
+		dir = os.TempDir()
+	}
+	path := filepath.Join(dir, "c03.slots")
+	if err := os.WriteFile(path, make([]byte, 8*nw), 0o644); err != nil {
+		fmt.Println("ENGINE-ERROR", err)
+		os.Exit(2)
+	}
+	errPath := filepath.Join(dir, "c03.child.stderr")
+	ef, _ := os.Create(errPath)
+	cmd := exec.Command(os.Args[0], os.Args[1:]...)
+	cmd.Env = append(os.Environ(), "C03_CHILD="+path)
+	cmd.Stdout = os.Stdout
+	cmd.Stderr = ef
+	err := cmd.Run()
+	ef.Close()
+	code := 0
+	if err != nil {
+		code = -1
+		if ee, ok := err.(*exec.ExitError); ok {
+			code = ee.ExitCode()
+		}
+	}
+	if code == 0 || code == 1 {
+		os.Exit(code)
+	}
+	tail := func(p string) string {
+		b, _ := os.ReadFile(p)
+		t := string(b)
+		if k := strings.Index(t, "fatal error:"); k >= 0 {
+			t = t[k:]
+		} else if k := strings.Index(t, "panic:"); k >= 0 {
+			t = t[k:]
+		}
+		if len(t) > 1200 {
+			t = t[:1200]
+		}
+		return t
+	}
+	b, _ := os.ReadFile(path)
+	confirmed := 0
+	var mu sync.Mutex
+	var wg sync.WaitGroup
+	for w := 0; w+8 <= len(b); w += 8 {
+		i := binary.LittleEndian.Uint64(b[w:])
+		if i == 0 {
+			continue
+		}
+		wg.Add(1)
+		go func(w int, i uint64) {
+			defer wg.Done()
+			one := exec.Command(os.Args[0], os.Args[1:]...)
+			one.Env = append(os.Environ(), "C03_ONE="+strconv.FormatUint(i-1, 10))
+			oneErr := filepath.Join(dir, fmt.Sprintf("c03.one%d.stderr", w))
+			of, _ := os.Create(oneErr)
+			one.Stderr = of
+			out, rerr := one.Output()
+			of.Close()
+			if rerr == nil {
+				return // this input compiles alone: it was merely in flight when another one killed the process
+			}
+			var src struct{ Fam, Src string }
+			sc := bufio.NewScanner(strings.NewReader(string(out)))
+			sc.Buffer(make([]byte, 1<<20), 1<<26)
+			for sc.Scan() {
+				if strings.HasPrefix(sc.Text(), "C03SRC ") {
+					_ = json.Unmarshal([]byte(sc.Text()[7:]), &src)
+				}
+			}
+			t := tail(oneErr)
+			first := strings.SplitN(strings.TrimSpace(t), "\n", 2)[0]
+			c.Report("crash "+trunc(src.Src), fmt.Sprintf("compiling %s kills the process (%s); recover() cannot catch it:\n%s", trunc(src.Src), first, t), map[string]string{"family": src.Fam, "source": src.Src})
+			mu.Lock()
+			confirmed++
+			mu.Unlock()
+		}(w, i)
+	}
+	wg.Wait()
+	if confirmed == 0 {
+		fmt.Println("ENGINE-ERROR the enumeration process died and no in-flight input reproduces it alone:\n" + tail(errPath))
+		os.Exit(2)
+	}
+	c.CapHit("the enumeration was aborted by a compiler crash that kills the process")
+	c.Finish(rule)
 }
 
 type slot struct {
@@ -128,10 +235,25 @@ var tokRe = regexp.MustCompile(`"(?:[^"\\\n]|\\.)*"|/(?:[^/\\\n]|\\.)+/|[A-Za-z_
 
 func main() {
 	c := vlib.Init("exploration")
-	rule := "families: (1) all byte strings of length<=2; (2) all token sequences of length<=3 (thorough 4) over a 60-token alphabet; (3) every prefix and single-token deletion (thorough: also duplication and 4 replacements) of every example program and test program corpus; (4) nesting families across the recursion limit and regex-length families across 1024; unterminated strings/regexes; (5) well-formed statements in context: every binary operator between every pair of 14 atoms (constants of each type, typed captures, metrics, pattern constants), unary forms, all constant-only depth-2 trees over 6 constants and 11 arithmetic/bitwise operators, every builtin with 0-3 arguments from the atoms; (6) pattern constants doubling per line (allocation growth). Each input: no panic, exactly one of {code, non-empty errors}, finishes, second compile identical. distinct_nontrivial = distinct inputs the compiler accepted"
+	rule := "families: (1) all byte strings of length<=2; (2) all token sequences of length<=3 (thorough 4) over a 60-token alphabet; (3) every prefix and single-token deletion (thorough: also duplication and 4 replacements) of every example program and test program corpus; (4) nesting families across the recursion limit and regex-length families across 1024; unterminated strings/regexes; (5) well-formed statements in context: every binary operator between every pair of 14 atoms (constants of each type, typed captures, metrics, pattern constants), unary forms, all constant-only depth-2 trees over 6 constants and 11 arithmetic/bitwise operators, every builtin with 0-3 arguments from the atoms; (6) pattern constants doubling per line (allocation growth); (7) every ordered forest of <=7 statements over {next, @a {..}, @b {..}, def a {..}, def b {..}} (quick: only those whose definitions contain a next, and at 7 statements only those defining and applying both decorators). The enumeration runs in a child process so that a fatal error (stack overflow) is attributed to its input. Each input: no panic, exactly one of {code, non-empty errors}, finishes, second compile identical. distinct_nontrivial = distinct inputs the compiler accepted"
 	nw := runtime.NumCPU()
 	for i := 0; i < nw; i++ {
 		slots = append(slots, &slot{})
+	}
+	debug.SetMaxStack(64 << 20) // a runaway recursion dies quickly instead of eating a gigabyte first
+	switch {
+	case os.Getenv("C03_ONE") != "":
+	case os.Getenv("C03_CHILD") == "":
+		supervise(c, rule, nw)
+	default:
+		f, err := os.OpenFile(os.Getenv("C03_CHILD"), os.O_RDWR, 0)
+		if err == nil {
+			slotIdx, err = syscall.Mmap(int(f.Fd()), 0, 8*nw, syscall.PROT_READ|syscall.PROT_WRITE, syscall.MAP_SHARED)
+		}
+		if err != nil {
+			fmt.Println("ENGINE-ERROR slot file:", err)
+			os.Exit(2)
+		}
 	}
 	go watchdog(c, rule)
 	var inputs []struct{ fam, src string }
@@ -340,7 +462,65 @@ func main() {
 			add("const-doubling", mk(n)+fmt.Sprintf("/y/ + A%d {\n}\n", n))
 		}
 	}
+	// (7) decorator definitions and applications: every ordered forest of statements over
+	// {next, @a {..}, @b {..}, def a {..}, def b {..}} (each decorator defined at most once): nested definitions,
+	// self- and mutual application, application before / inside / after the definition.
+	// thorough: all forests of <=7 statements.  quick: forests of <=6 statements in which every definition
+	// contains a next (the others are refused at once), plus those of 7 statements that define and apply both.
+	{
+		type fr struct {
+			s                string
+			da, db           int
+			next, useA, useB bool
+		}
+		maxN := 7
+		prune := c.Quick()
+		trees := make([][]fr, maxN+1)
+		forests := make([][]fr, maxN+1)
+		forests[0] = []fr{{s: ""}}
+		for n := 1; n <= maxN; n++ {
+			if n == 1 {
+				trees[1] = append(trees[1], fr{s: "next\n", next: true})
+			}
+			for li, lab := range []fr{{s: "@a", useA: true}, {s: "@b", useB: true}, {s: "def a", da: 1}, {s: "def b", db: 1}} {
+				for _, f := range forests[n-1] {
+					if lab.da+f.da > 1 || lab.db+f.db > 1 {
+						continue
+					}
+					if prune && li >= 2 && !f.next {
+						continue
+					}
+					trees[n] = append(trees[n], fr{lab.s + " {\n" + f.s + "}\n", lab.da + f.da, lab.db + f.db, f.next, lab.useA || f.useA, lab.useB || f.useB})
+				}
+			}
+			for k := 1; k <= n; k++ {
+				for _, t := range trees[k] {
+					for _, f := range forests[n-k] {
+						if t.da+f.da <= 1 && t.db+f.db <= 1 {
+							forests[n] = append(forests[n], fr{t.s + f.s, t.da + f.da, t.db + f.db, t.next || f.next, t.useA || f.useA, t.useB || f.useB})
+						}
+					}
+				}
+			}
+			for _, f := range forests[n] {
+				if prune && n == maxN && !(f.da == 1 && f.db == 1 && f.useA && f.useB) {
+					continue
+				}
+				add("decorators", f.s)
+			}
+		}
+	}
+	if one := os.Getenv("C03_ONE"); one != "" {
+		i, _ := strconv.Atoi(one)
+		b, _ := json.Marshal(map[string]string{"Fam": inputs[i].fam, "Src": inputs[i].src})
+		fmt.Printf("C03SRC %s\n", b)
+		os.Stdout.Sync()
+		compileOnce(inputs[i].src)
+		os.Exit(0)
+	}
 	vlib.ParallelW(len(inputs), nw, func(w, i int) {
+		setSlot(w, i+1)
+		defer setSlot(w, 0)
 		check(c, w, inputs[i].fam, inputs[i].src)
 		if i%70001 == 5 || (inputs[i].fam == "nest-else" && strings.Count(inputs[i].src, "else") == 3) {
 			c.Sample(map[string]string{"family": inputs[i].fam, "source": trunc(inputs[i].src)})
